@@ -121,7 +121,9 @@ fn expectations(c: &CmdSpec, depth: usize, inherited_hidden: bool, out: &mut Vec
         }
         for (al, vis) in &a.aliases {
             if *vis {
-                items.push(("long-visible-alias", al.clone()));
+                // (the generators take aliases from `get_long_and_visible_aliases`, which is None
+                // without a long: keyed apart, F31)
+                items.push((if a.long.is_some() { "long-visible-alias" } else { "long-visible-alias-of-option-without-long" }, al.clone()));
             }
         }
         if !a.is_positional() {
@@ -130,7 +132,7 @@ fn expectations(c: &CmdSpec, depth: usize, inherited_hidden: bool, out: &mut Vec
             }
             for (c, vis) in &a.short_aliases {
                 if *vis {
-                    items.push(("short-visible-alias", c.to_string()));
+                    items.push((if a.short.is_some() { "short-visible-alias" } else { "short-visible-alias-of-option-without-short" }, c.to_string()));
                 }
             }
         }
@@ -325,7 +327,9 @@ pub fn case(seed: u64, st: &mut Stats) {
         for ((c, class), n) in want {
             let e = per_char.entry(c).or_insert((0, class));
             e.0 += n;
-            if class == "short-visible-alias" {
+            // the most specific class among the carriers names the violation
+            let rank = |c: &str| if c.ends_with("without-short") { 2 } else if c == "short-visible-alias" { 1 } else { 0 };
+            if rank(class) > rank(e.1) {
                 e.1 = class;
             }
         }
@@ -417,7 +421,8 @@ pub fn case(seed: u64, st: &mut Stats) {
                 for l in a.long.iter().chain(a.aliases.iter().filter(|(_, v)| *v).map(|(l, _)| l)) {
                     let full = format!("--{}", l);
                     if full.starts_with(cur.as_str()) && !rep.contains(&full) {
-                        st.violation("c16:bash-misses-option", format!("{:?} | {}", full, c2()));
+                        let sfx = if a.long.is_none() { ":long-visible-alias-of-option-without-long" } else { "" };
+                        st.violation(format!("c16:bash-misses-option{}", sfx), format!("{:?} | {}", full, c2()));
                         return;
                     }
                 }
